@@ -15,7 +15,7 @@ RULE = ("per case: a slot with 0-4 existing shares, each created under one of 3 
         "slot; distinct by case.")
 LEVEL_TEXT = "Random multi-share requests; all-or-nothing is decided by comparing complete snapshots of the share directory before and after every refused request."
 ASSUMPTIONS = ["shares with foreign write enablers are placed in the bucket directory directly (the API cannot create them on a correct server)"]
-REQUIRED_CLASSES = ["bad-enabler", "testv-failed", "mixed-enablers", "multi-share-refused", "applied-multi", "enabler-mismatch-on-unnamed-share"]
+REQUIRED_CLASSES = ["write-beyond-max-size", "bad-enabler", "testv-failed", "mixed-enablers", "multi-share-refused", "applied-multi", "enabler-mismatch-on-unnamed-share"]
 BUDGET = {"quick": 600, "thorough": 3600}
 
 
@@ -26,7 +26,7 @@ def plan(tier):
 
 def cases():
     test = st.tuples(st.sampled_from(["in", "end", "abs"]), st.integers(0, 100), st.integers(0, 30), st.sampled_from(["ok", "ok", "bad", "empty"]))
-    vec = st.tuples(st.sampled_from(["in", "end", "past", "abs"]), st.integers(0, 200), st.integers(1, 60))
+    vec = st.tuples(st.sampled_from(["in", "in", "end", "end", "past", "past", "abs", "abs", "toobig"]), st.integers(0, 200), st.integers(1, 60))
     share_spec = st.fixed_dictionaries({"tests": st.lists(test, max_size=2), "writes": st.lists(vec, max_size=2),
                                         "newlen": st.tuples(st.sampled_from(["none", "none", "smaller", "zero", "larger"]), st.integers(0, 100))})
     req = st.fixed_dictionaries({"spec": st.dictionaries(st.sampled_from(["0", "1", "2", "3", "4"]), share_spec, min_size=1, max_size=4),
@@ -64,7 +64,7 @@ def run_case(case, ctx):
         if any(m.enabler_i != r["enabler"] for sh, m in existing.items() if sh not in tw) and all(existing[sh].enabler_i == r["enabler"] for sh in named_existing):
             w.classes.add("enabler-mismatch-on-unnamed-share")
         res = w.rtw(si_i, r["enabler"], r["lease"], tw, [tuple(x) for x in r["readv"]], what)
-        if res in ("bad-enabler", "tests-failed") and (len(tw) >= 2 or len(ens) > 1):
+        if res in ("bad-enabler", "tests-failed", "refused-oversized") and (len(tw) >= 2 or len(ens) > 1):
             w.classes.add("multi-share-refused")
             nt = True
         if res == "applied" and len(tw) >= 2:
